@@ -3,7 +3,7 @@ Driver for C20.  One request line = one (schema, instance, path list) case, spac
 prefix notation (strings that may contain spaces are `=` followed by dot-separated code points,
 `~` is "none"):
 
-  line    := ("S" | "SU") schema "T" forest "Q" nq query*      (SU = schema not built: every element xs:anyType)
+  line    := ("S" | "SU" | "SB" assertion(0|1) elemdecl) schema "T" forest "Q" nq query*      (SU = schema not built: every element xs:anyType)
   schema  := nct ctype* nel elemdecl* nty (name ty)*
   ctype   := "C" name? content np particle* na attrdecl*
   content := "cs" stype | "ce" | "cm" | "cz"
@@ -309,11 +309,6 @@ def report (fv : Bool) (s : Schema) : Nat → Forest Ann → List String
     (me :: attrs) ++ report fv s (start + 1 + ats.length) kids ++
       report fv s (start + 1 + ats.length + fsize kids) rest
 
-def allTypedB : Forest Ann → Bool
-  | .nil => true
-  | .leaf _ _ r => allTypedB r
-  | .elem a _ _ _ k r => a.xsdType.isSome && allTypedB k && allTypedB r
-
 def absentDefault (s : Schema) : Forest Ann → Bool
   | .nil => false
   | .leaf _ _ r => absentDefault s r
@@ -333,6 +328,14 @@ def sameAnn (s : Schema) : Forest Ann → Forest Ann → Bool
 def answer (line : String) : String :=
   let toks := (line.splitOn " ").filter (· ≠ "")
   let fv := toks.head? != some "SU"          -- "SU": the schema is not built (not fully valid)
+  -- "SB" asr(0|1) elemdecl : the proxy was constructed with this base element
+  let (base, toks) : Option BaseElem × List String :=
+    match toks with
+    | "SB" :: asr :: r =>
+      (match pElemDecl r with
+       | some (d, r') => (some ⟨d, asr == "1"⟩, "S" :: r')
+       | none => (none, []))
+    | _ => (none, toks)
   match toks with
   | _ :: r =>
     match pSchema r with
@@ -348,7 +351,7 @@ def answer (line : String) : String :=
             match pCounted pQuery r with
             | none => "bad-query"
             | some (qs, _) =>
-              let ann := applySchemaV fv s t
+              let ann := if base.isSome then applySchemaB s base t else applySchemaV fv s t
               let recs := report fv s 0 ann
               let absd := absentDefault s ann
               let c := s!"c|{if !fv || sameAnn s ann (applyF s none t) then 1 else 0}|{if allTypedB ann then 1 else 0}|{if absd then 1 else 0}"
